@@ -326,7 +326,7 @@ func runC07(c *core.Check) {
 		}
 	}
 	set, pred := g.reachable(roots, func(f *ssa.Function) bool {
-		return inModule(f) && f.Name() != "init" && !strings.HasPrefix(f.Name(), "init#")
+		return inModule(f) && !isPkgInit(f)
 	})
 	c.Analysed("functions_reachable_from_entry_points", len(set))
 	kinds := map[string]bool{"go": true, "os.Exit": true, "log.Fatal": true}
